@@ -766,7 +766,8 @@ impl<'a> Parser<'a> {
                 Token::DoubleColon => {
                     let convert_to_type = match rhs.tree {
                         ParserExpressionTreeData::ColumnAccess(typename) => {
-                            ValueType::from_str(&typename).ok_or_else(|| ParserError::new(op_location.clone(), ParserErrorType::NotDefinedType(typename)))?
+                            // Type names are not case sensitive (as in column definitions)
+                            ValueType::from_str(&typename.to_lowercase()).ok_or_else(|| ParserError::new(op_location.clone(), ParserErrorType::NotDefinedType(typename)))?
                         }
                         _ => { return Err(ParserError::new(op_location, ParserErrorType::ExpectedIdentifier)); }
                     };
